@@ -346,7 +346,7 @@ impl<T: Payload> Scn<T> {
             ctx.finish();
             for (k, t) in &self.workers[w].regs {
                 if let Some(e) = ctx.log.get_mut(*k) {
-                    e.reg_t = Some(*t);
+                    e.reg_t = Some(e.reg_t.map_or(*t, |x| x.min(*t)));
                 }
             }
             events.append(&mut ctx.log);
